@@ -23,7 +23,17 @@ THEOREMS = [
     'AbacusVerif.Inbounds.interp_reads_spec',
     'AbacusVerif.Inbounds.rowLoop_inbounds',
     'AbacusVerif.Inbounds.cumsum_inbounds',
+    'AbacusVerif.Inbounds.unclamped_would_fault',
+    # corollaries of the models of the other kernels (Props/C11All.lean)
+    'AbacusVerif.Inbounds.tsc_cic_axis_inbounds',
+    'AbacusVerif.Inbounds.tsc_cic_scatter_inbounds',
+    'AbacusVerif.Inbounds.tscpar_starts_inbounds',
+    'AbacusVerif.Inbounds.twopass_inbounds',
+    'AbacusVerif.Inbounds.concat_inbounds',
+    'AbacusVerif.Inbounds.pack9_inbounds',
+    'AbacusVerif.Inbounds.partition_inbounds',
 ]
+LEAN_MODULES = ['AbacusVerif.Props.C11', 'AbacusVerif.Props.C11All']
 DRIVER = 'drv_c11'
 RULE = ('per kernel, boundary-directed inputs generated from its documented precondition (empty arrays, single '
         'elements, zero-particle halos, empty superslabs, (g,g,1) and 2-cell grids, positions exactly at 0 and '
